@@ -23,15 +23,28 @@ def gen_config(rng, tier):
 
 
 def batch_oracles(merged, mode):
-    """batch-level statistical oracle: fairness of undetermined outcomes in fair runs."""
+    """batch-level statistical oracles over fair (not dictated) runs: fairness of undetermined
+    outcomes overall and per stratum (first / later entry of a list, rank-reducing / rank-keeping
+    measurement), and independence of consecutive undetermined outcomes within one call."""
     out = []
-    n = merged["stats"].get("fair_coins", 0)
-    ones = merged["stats"].get("fair_ones", 0)
-    if n >= 1000:
-        sigma = (n ** 0.5) / 2
-        z = abs(ones - n / 2) / sigma
-        rec = {"statistic": "fair_outcome_ones", "n": n, "ones": ones, "z": z, "threshold_sigma": 6.2}
-        out.append(("c06.coin_fairness", z <= 6.2, rec))
+    st = merged["stats"]
+
+    def ztest(name, n, ones):
+        if n >= 1000:
+            z = abs(ones - n / 2) / ((n ** 0.5) / 2)
+            out.append((name, z <= 6.2, {"statistic": "ones among fair undetermined outcomes", "n": n, "ones": ones,
+                                         "z": z, "threshold_sigma": 6.2}))
+    ztest("c06.coin_fairness", st.get("fair_coins", 0), st.get("fair_ones", 0))
+    for stratum in ("first", "later", "rank_reducing", "rank_keeping"):
+        ztest("c06.coin_fairness:" + stratum, st.get("fair_coins:" + stratum, 0), st.get("fair_ones:" + stratum, 0))
+    cells = [st.get("fair_pair:%d%d" % (a, b), 0) for a in (0, 1) for b in (0, 1)]
+    n = sum(cells)
+    if n >= 2000:
+        e = n / 4.0
+        x2 = sum((c - e) ** 2 / e for c in cells)
+        out.append(("c06.coin_independence", x2 <= 44.85,
+                    {"statistic": "chi2 (3 dof) of consecutive undetermined outcomes within one call", "n": n,
+                     "cells_00_01_10_11": cells, "chi2": x2, "threshold": 44.85, "false_alarm_level": 1e-9}))
     return out
 
 
